@@ -180,6 +180,11 @@ class Sim:
     def garbage_line(self, rng):
         return self.garbage(rng).replace('\n', '') + '\n'
 
+    def prefixed_write(self, rng):
+        """a write command typed after a few garbage bytes (with or without a separator in between)"""
+        pre = rand_bytes(rng, rng.randrange(1, 4), rng.choice([None, 'Tx;= \r\t', SEPS])).replace('\n', '')
+        return pre + self.write_line(rng)
+
     def buffer_idle(self, s):
         return s.msg == ''
 
@@ -551,7 +556,7 @@ def _run(ctx, sim, suite, streams, okfun=None):
 def corr_c03(ctx, sim):
     """random / truncated / corrupted byte streams, then the terminator and a probe query"""
     rng = ctx.rng
-    streams = list(sim.corpus('c03'))
+    streams = corpus_streams('c03', sim) + list(sim.corpus('c03'))
     streams += sim.byte_sweep()
     for _ in range(int(ctx.n(250, 2500) * sim.scale)):
         parts = []
@@ -579,7 +584,7 @@ def corr_c05(ctx, sim):
     """register write / read-back sequences with in-domain, boundary and out-of-domain values"""
     rng = ctx.rng
     sim.thorough = not ctx.quick()
-    streams = list(sim.corpus('c05'))
+    streams = corpus_streams('c05', sim) + list(sim.corpus('c05'))
     for _ in range(int(ctx.n(250, 2500) * sim.scale)):
         parts = []
         for _ in range(rng.randrange(2, 9)):
@@ -599,7 +604,7 @@ def corr_c05(ctx, sim):
 def corr_c02(ctx, sim):
     """mixed history, resynchronisation, then every query of the catalogue"""
     rng = ctx.rng
-    streams = list(sim.corpus('c02'))
+    streams = corpus_streams('c02', sim) + list(sim.corpus('c02'))
     for _ in range(int(ctx.n(200, 2000) * sim.scale)):
         h = sim.history(rng)
         if rng.random() < 0.3:
@@ -613,7 +618,7 @@ def corr_c04(ctx, sim):
     """accepted, refused and erroneous requests; every implementation reply also goes through the
     Coq decoder of the protocol"""
     rng = ctx.rng
-    streams = list(sim.corpus('c04'))
+    streams = corpus_streams('c04', sim) + list(sim.corpus('c04'))
     for _ in range(int(ctx.n(200, 2000) * sim.scale)):
         parts = []
         for _ in range(rng.randrange(1, 7)):
@@ -622,6 +627,45 @@ def corr_c04(ctx, sim):
                          else sim.refused_line(rng) if r < 0.85 else sim.garbage(rng))
         streams.append(sim.concat(parts))
     _run(ctx, sim, 'c04', streams, okfun=sim.okfun_wf)
+
+
+def load_corpus(prop, sim):
+    """/verif/corpus/<PROP>/smb-*.json : {sim, check, args}; run first by the oracle of <prop> and
+    fed (concatenated) to the correspondence suite of <prop>"""
+    import glob
+    import json
+    import os
+    d = os.path.join(os.path.dirname(os.path.dirname(os.path.dirname(os.path.abspath(__file__)))), 'corpus', prop.upper())
+    out = []
+    for f in sorted(glob.glob(os.path.join(d, 'smb-*.json'))):
+        w = json.load(open(f))
+        if w.get('sim') != sim.name:
+            continue
+        args = w['args']
+        if sim.name == 'weather':
+            args = {k: sim.unjson(v) for k, v in args.items()}
+        out.append((w['check'], args, os.path.basename(f)))
+    return out
+
+
+def corpus_streams(prop, sim):
+    out = []
+    for check, args, _ in load_corpus(prop, sim):
+        order = [k for k in ('history', 'stream', 'line', 'between', 'noise', 'probe', 'query', 'a', 'b') if k in args]
+        parts = []
+        for k in order:
+            parts.append(args[k])
+            if k == 'history':
+                parts.append(sim.resync(None))
+        parts = [x for x in parts if isinstance(x, (str, list))]
+        if parts:
+            out.append(sim.concat(parts))
+    return out
+
+
+def run_corpus(ctx, prop, sim):
+    for check, args, name in load_corpus(prop, sim):
+        _report(ctx, sim, check, CHECKS[check](sim, **args), **args)
 
 
 CORR = dict(c03=corr_c03, c05=corr_c05, c02=corr_c02, c04=corr_c04)
@@ -772,6 +816,7 @@ def _report(ctx, sim, check, res, **args):
 
 def oracle_c03(ctx, sim):
     rng = ctx.rng
+    run_corpus(ctx, 'c03', sim)
     for _ in range(ctx.n(300, 4000)):
         h = sim.history(rng)
         if rng.random() < 0.6:
@@ -789,6 +834,7 @@ def oracle_c03(ctx, sim):
 
 def oracle_c02(ctx, sim):
     rng = ctx.rng
+    run_corpus(ctx, 'c02', sim)
     for h in sim.c02_histories():
         for q in sim.queries:
             _report(ctx, sim, 'c02', check_c02(sim, h, q), history=h, query=q)
@@ -802,6 +848,7 @@ def oracle_c02(ctx, sim):
 
 def oracle_c04(ctx, sim):
     rng = ctx.rng
+    run_corpus(ctx, 'c04', sim)
     for st in sim.c04_streams():
         _report(ctx, sim, 'c04', check_c04(sim, st), stream=st)
     for _ in range(ctx.n(300, 4000)):
@@ -816,6 +863,7 @@ def oracle_c04(ctx, sim):
 
 def oracle_c05(ctx, sim):
     rng = ctx.rng
+    run_corpus(ctx, 'c05', sim)
     for (h, reg, tok, between) in sim.c05_seeds():
         _report(ctx, sim, 'c05_readback', check_c05_readback(sim, h, reg, tok, between),
                 history=h, reg=reg, tok=tok, between=between)
@@ -831,7 +879,8 @@ def oracle_c05(ctx, sim):
     for _ in range(ctx.n(300, 4000)):
         h = sim.history(rng, rng.randrange(0, 4))
         r = rng.random()
-        line = sim.refused_line(rng) if r < 0.5 else sim.garbage_line(rng) if r < 0.75 else sim.write_line(rng)
+        line = (sim.refused_line(rng) if r < 0.4 else sim.garbage_line(rng) if r < 0.6 else sim.write_line(rng) if r < 0.75
+                else sim.prefixed_write(rng))
         _report(ctx, sim, 'c05_refused', check_c05_refused(sim, h, line), history=h, line=line)
 
 
@@ -1172,6 +1221,11 @@ class WLO(Sim):
     def reg_enc(self, reg, tok):
         # documented domain: a number for frequencies / attenuations, a word for the references
         if reg.startswith('ref'):
+            try:
+                float(tok)
+                return ('any',)       # 'inf', 'Infinity', 'nan' ... : stored as a float, rendered by repr
+            except ValueError:
+                pass
             if re.fullmatch(r'[A-Za-z]+', tok):
                 return tok[0].upper() + tok[1:].lower() + '.\r\n'
             return ('any',)
@@ -1491,6 +1545,22 @@ class Weather(Sim):
     def probe(self, rng):
         return self.T('r %s\n' % rng.choice(self.ids), rng.choice(self.TIDS))
 
+    def prefixed_write(self, rng):
+        """a write typed after a few garbage bytes on the same thread, possibly while another thread types"""
+        tid = rng.choice(self.TIDS)
+        reg = rng.choice(self.ids)
+        pre = rand_bytes(rng, rng.randrange(1, 4), rng.choice([None, 'Txrw \t', 'rw '])).replace('\n', '')
+        line = self.T(pre, tid) + self.T('w %s %s\n' % (reg, self.reg_token(rng, reg)), tid)
+        if rng.random() < 0.3:
+            other = self.one_line(rng, rng.choice([t for t in self.TIDS if t != tid]))
+            out = []
+            a, b = list(line), list(other)
+            while a or b:
+                src = a if (a and (not b or rng.random() < 0.5)) else b
+                out.append(src.pop(0))
+            return out
+        return line
+
     def thread_pair(self, rng):
         """two complete command lines of two threads about two different sensors"""
         i, j = rng.sample(self.ids, 2)
@@ -1538,12 +1608,34 @@ class Weather(Sim):
     def reg_match(self, reg, got, want):
         return True if want == ('any',) else got == want
 
+    def completed(self, stream, outs):
+        """(typed text, outcome) of every byte that closed a thread's buffer, segmenting each thread's
+        bytes the way the framer does: any outcome other than True (a rejected first / second byte,
+        a completed or refused line) restarts that thread's buffer.  Assumes the buffers are empty
+        when `stream` starts (the checks resynchronise every thread first)."""
+        cur, res = {}, []
+        for (tid, ch), o in zip(stream, outs):
+            text = cur.get(tid, '') + ch
+            if o[0] == 'T':
+                cur[tid] = text
+            else:
+                cur[tid] = ''
+                res.append((text, o))
+        return res
+
+    def is_write_ack(self, text, o):
+        """the reply to a completed `w ...` line that is a sensor record (not the error string)"""
+        return o[0] == 'R' and o[1] != self.err and text[:1] == 'w'
+
     def line_acked(self, line, outs):
-        return any(o[0] == 'R' and o[1] != self.err and ''.join(c for _, c in line).lstrip().startswith('w') for o in outs)
+        return any(self.is_write_ack(text, o) for text, o in self.completed(line, outs))
 
     def between_ok(self, reg, between, outs):
-        return ('w %s' % reg) not in ''.join(c for _, c in between) and \
-            not any(t != between[0][0] for t, _ in between[:0])
+        # hypothesis of the read-back statement: no acknowledged write to `reg` in between
+        for text, o in self.completed(between, outs):
+            if self.is_write_ack(text, o) and (text.strip().split() + ['', ''])[1] == reg:
+                return False
+        return True
 
     def non_writing_line(self, rng, reg):
         for _ in range(20):
